@@ -9,9 +9,11 @@ for d in "$here"/seeded/*/; do
   [ -n "${1:-}" ] && [[ "$name" != *"$1"* ]] && continue
   id="${name%%-*}"
   # changes whose fault lies outside what their nominal property observes: the owning check is the one that must catch them
-  case "$name" in C01-C|C02-G|C02-H) id=C15;; C19-G) id=C14;; esac
+  case "$name" in C01-C|C02-G|C02-H) id=C15;; C19-G|C19-J) id=C14;; C13-J) id=C08;; esac
   # C13-G violates no listed property (DESIGN 7.2 item 3): recorded, not expected to be caught
-  if [ "$name" = "C13-G" ]; then echo "skip $name (violates no listed property)"; continue; fi
+  # C18-J delays a hand-built Unknown message that wraps a type-0 (data chunk) frame: on the wire that IS a data chunk, so
+  # the statement does not clearly forbid the pause and C18 does not assert its absence (DESIGN 7.4, fifth wave)
+  if [ "$name" = "C13-G" ] || [ "$name" = "C18-J" ]; then echo "skip $name (violates no listed property as stated)"; continue; fi
   res=$("$here/tools/try_patch.sh" "$d/patch.diff" "$id" 2>&1 | tail -1)
   n=$((n+1))
   case "$res" in *"CAUGHT BY: $id"*) echo "ok   $name ($id)";; *) echo "MISS $name: $res"; miss=$((miss+1));; esac
